@@ -7,16 +7,105 @@ import io
 import os
 import shutil
 
+import fractions
+
 from harness import wbgen
-from harness.common import canon, ensure_impl_on_path
+from harness.common import canon, dec_val, enc_val, ensure_impl_on_path, known_predicate, same
 
 GEN_MODULES = ['excelutil', 'aggregates', 'stats']
+
+ASSUMPTIONS_MODEL = """correspondence leg: every validate_calcs run of the oracle streams (and two
+correspondence-only streams: tolerance=0 on the consistent file, stored result = the text of the cell's own
+formula) is replayed on the extracted loop model coq/Model/Validate.v (entry 'validate' of coq/Extract/C12.v) with
+the same (workbook, stored results, formula texts, tolerance, outputs); compared exactly: the mismatch dictionary
+(addresses in insertion order, original and calced of every entry) and the value of every cell of the cell map
+after the run.  Not compared: the 'exceptions' / 'not-implemented' buckets (oracle-only, third stream)."""
 
 ASSUMPTIONS = [
     "stored results are integers, text and logicals computed by the implementation itself on a no-data "
     "copy of the workbook (integer arithmetic: 'consistent' is exact)",
     "the .xlsx files are written with openpyxl and the cached values injected into the sheet XML",
 ]
+
+
+# ---- implementation behaviour the faithful model reproduces (coq/Refuted/C12_*.v); these streams are
+# correspondence-only (no oracle call), the predicates are inert until the coordinator lists them
+@known_predicate('C12-zero-tolerance')
+def _zero_tol(case):
+    args = case.get('args') or []
+    return case.get('call') == 'validate' and len(args) == 2 and args[1] is not None and args[1] <= 0
+
+
+@known_predicate('C12-stored-formula-text')
+def _formula_text(case):
+    pert = case.get('perturbed') or []
+    return case.get('call') == 'validate' and len(pert) == 4 and pert[3] == 'formula-text'
+
+
+def canon_model(v):
+    """model values -> the canonical form of implementation values"""
+    if isinstance(v, list):
+        return [canon_model(x) for x in v]
+    if isinstance(v, tuple) and not (len(v) == 2 and v[0] == 'float'):
+        return tuple(canon_model(x) for x in v)
+    return v
+
+
+def has_marker(v):
+    """the model's marker for 'the operator model raised' (outside the model)"""
+    if isinstance(v, (list, tuple)):
+        return any(has_marker(x) for x in v)
+    return v == '#MODEL-RAISE'
+
+
+def enc_tol(tol):
+    if tol is None:
+        return []
+    f = fractions.Fraction(tol)
+    return [f.numerator, f.denominator]
+
+
+def record(batch, case, wb, stored, comp, rep, outs, tol):
+    """What the implementation shows after validate_calcs, and the model call that replays it."""
+    texts = []
+    for n in wb.nodes:
+        cell = comp.cell_map.get(n['addr'])
+        t = str(cell.formula) if (cell is not None and n['kind'] == 'formula') else (n.get('text') or '')
+        texts.append([ord(c) for c in t])
+    oidx = wb.formulas() if outs is None else [wb.index_of(a) for a in outs]
+    irep = [(wb.index_of(a), canon(m.original), canon(m.calced)) for a, m in rep.get('mismatch', {}).items()]
+    batch.append((case, wb, ('validate', [wb.wire(stored=stored), texts, enc_tol(tol), oidx]),
+                  irep, wbgen.snapshot(comp, wb), sorted(set(rep) - {'mismatch'})))
+
+
+def compare(ctx, batch):
+    answers = ctx.model.batch([call for (_, _, call, _, _, _) in batch])
+    for (case, wb, _, irep, isnap, other), ans in zip(batch, answers):
+        if not (isinstance(ans, list) and len(ans) == 4 and all(isinstance(x, list) for x in ans)):
+            ctx.divergence(case, 'n/a', ans, 'Model/Validate.v validate entry rejected the input')
+            continue
+        left, _verified, mrep, msnap = ans
+        if left:                       # out of fuel: outside the model (needs a skipped 'No Orig data?' cell)
+            ctx.count(('fuel', repr(case)), kind='model:out-of-fuel')
+            continue
+        if other:                      # exception buckets are not modelled
+            ctx.count(('exc', repr(case)), kind='model:exception-bucket-skipped')
+            continue
+        mrep = [(e[0], canon_model(dec_val(e[1])), canon_model(dec_val(e[2]))) for e in mrep]
+        msnap = {i: canon_model(dec_val(x[1])) for i, x in enumerate(msnap) if x[0] == 1}
+        if has_marker([m[1:] for m in mrep]) or has_marker(list(msnap.values())):
+            ctx.count(('unmodelled', repr(case)), kind='model:unmodelled-operator')
+            continue
+        ctx.count(('corr', repr(case)), kind='correspondence:' + ('perturbed' if case.get('perturbed') else 'consistent'))
+        if [m[0] for m in mrep] != [i[0] for i in irep] or any(
+                not (same(m[1], i[1]) and same(m[2], i[2])) for m, i in zip(mrep, irep)):
+            ctx.divergence(case, irep, mrep, 'Model/Validate.v report = validate_calcs mismatch dictionary '
+                                             '(order, original, calced)')
+            continue
+        if set(msnap) != set(isnap) or any(not same(msnap[i], isnap[i]) for i in isnap):
+            diff = {i: (isnap.get(i, '<unbuilt>'), msnap.get(i, '<unbuilt>')) for i in set(isnap) | set(msnap)
+                    if i not in isnap or i not in msnap or not same(msnap[i], isnap[i])}
+            ctx.divergence(case, diff, 'see impl', 'Model/Validate.v final cache = cell_map values after validate_calcs')
 
 
 def ancestors(wb, n):
@@ -46,6 +135,7 @@ def run(ctx):
         "+-{tol/2, tol, 2 tol, 1}, text, logical, error value) x tolerance in {None, 0.001, 1} x checked outputs "
         "(all formulas / one output); distinct = distinct (workbook, perturbed cell, perturbation, tolerance, outputs)")
     nwb = ctx.n(60, 600)
+    batch = []
     for k in range(nwb):
         wb = wbgen.gen_workbook(rng, ncells=rng.randrange(5, 10), pool=wbgen.CLEAN_POOL + [0, 1])
         desc = [(x['addr'], x.get('value'), x.get('text')) for x in wb.nodes]
@@ -67,6 +157,7 @@ def run(ctx):
                     ctx.violation(case, f"validate_calcs raises {type(exc).__name__}: {exc}"[:200])
                     continue
                 ctx.count(('ok', k, tol, repr(outs)), kind='consistent')
+                record(batch, case, wb, good, comp, rep, outs, tol)
                 if rep != {}:
                     ctx.violation(case, "non-empty report on a consistent workbook", impl=repr(rep)[:300], expected={})
         # ---- perturb one stored result at a time
@@ -97,6 +188,7 @@ def run(ctx):
                     continue
                 ctx.count(('pert', k, p, kind, tol, repr(outs)), kind='perturbed-' + kind,
                           sample=dict(case, report=repr(rep)[:200]))
+                record(batch, case, wb, altered, comp, rep, outs, tol)
                 mism = rep.get('mismatch', {})
                 if kind == 'half-tol' and tol is not None:
                     # within the tolerance: must not be reported
@@ -121,6 +213,28 @@ def run(ctx):
                                       impl=repr(rep)[:300])
                 if set(rep) - {'mismatch'}:
                     ctx.violation(case, "unexpected exception / not-implemented entries", impl=repr(rep)[:300])
+        # ---- correspondence-only streams (model and implementation agree; see coq/Refuted/C12_*.v)
+        try:
+            wbgen.write_xlsx_with_results(wb, good, path)
+            comp = ExcelCompiler(filename=path)
+            outs = rng.choice([None, [wb.nodes[rng.choice(formulas)]['addr']]])
+            rep = quiet(comp.validate_calcs, output_addrs=outs, tolerance=0)
+            record(batch, dict(call='validate', workbook=desc, args=[outs, 0], perturbed=None),
+                   wb, good, comp, rep, outs, 0)
+            p = rng.choice(formulas)
+            altered = dict(good)
+            altered[p] = wb.nodes[p]['text']
+            wbgen.write_xlsx_with_results(wb, altered, path)
+            comp = ExcelCompiler(filename=path)
+            tol = rng.choice([None, 0.001, 1])
+            rep = quiet(comp.validate_calcs, tolerance=tol)
+            record(batch, dict(call='validate', workbook=desc, args=[None, tol],
+                               perturbed=[wb.nodes[p]['addr'], good[p], altered[p], 'formula-text']),
+                   wb, altered, comp, rep, None, tol)
+        except Exception as exc:      # noqa: BLE001
+            ctx.broke('harness: correspondence-only stream failed', repr(exc))
+    if ctx.model:
+        compare(ctx, batch)
     # ---- cells that cannot be evaluated are reported, not skipped
     for k in range(ctx.n(10, 100)):
         wb = wbgen.gen_workbook(rng, ncells=rng.randrange(4, 8), pool=wbgen.CLEAN_POOL)
